@@ -135,7 +135,7 @@ def s2c_distance(ctx, count):
     return done
 
 
-def record_fit(ctx, rng, it, km, X, n, k, d, strategy, kmeans0, seed, max_iter, balanced, dtr, gtr, ftr):
+def record_fit(ctx, rng, it, km, X, n, k, d, strategy, kmeans0, seed, max_iter, balanced, dtr, gtr, ftr, big=False):
     """fit + predict one model under the hooks; append association / fit / predict traces."""
     site = SITE_D if strategy == "distance" else (SITE_G if strategy == "gain" else SITE_W)
     sig = "fit kmeans0=%s n%%k=%s" % (kmeans0, "0" if n % k == 0 else ("1" if n % k == 1 else ">=2"))
@@ -173,11 +173,18 @@ def record_fit(ctx, rng, it, km, X, n, k, d, strategy, kmeans0, seed, max_iter, 
         Xs = numpy.array([[rng.randint(0, 6) for _ in range(d)] for _ in range(m2)], dtype=numpy.float64)
         Xs[1] = Xs[0]
         batches.append(("s", Xs))
+    if balanced and big:
+        # a batch of more than a thousand rows, most of them near one centre (sizes only: the association trace of such
+        # a batch is not recorded)
+        mb = 1025 + rng.randint(0, 40)
+        Xb = numpy.array([[rng.randint(0, 1) for _ in range(d)] for _ in range(mb - 12)] +
+                         [[rng.randint(0, 6) for _ in range(d)] for _ in range(12)], dtype=numpy.float64)
+        batches.append(("b", Xb))
     for tag, Xq in batches:
-        record_predict(ctx, "%s%s" % (it, tag), km, Xq, k, balanced, site, dtr, gtr, ftr)
+        record_predict(ctx, "%s%s" % (it, tag), km, Xq, k, balanced, site, dtr, gtr, ftr, assoc=Xq.shape[0] <= 100)
 
 
-def record_predict(ctx, it, km, Xq, k, balanced, site, dtr, gtr, ftr):
+def record_predict(ctx, it, km, Xq, k, balanced, site, dtr, gtr, ftr, assoc=True):
     m = Xq.shape[0]
     psig = "predict balanced=%s m%%k=%s%s" % (balanced, "0" if m % k == 0 else ("1" if m % k == 1 else ">=2"), " m<k" if m < k else "")
     praised = None
@@ -188,12 +195,12 @@ def record_predict(ctx, it, km, Xq, k, balanced, site, dtr, gtr, ftr):
             praised = "AssertionError: " + str(e)[:80]
         except Exception as e:
             praised = repr(e)[:120]
-    calls = split_calls(ev)
+    calls = split_calls(ev) if assoc else []
     if praised is not None:
         if calls:
             calls[-1]["ev"].append(dict(a="raised", err=praised))
         else:
-            ctx.violation("CallSucceeds", site, psig, praised, case=dict(X=Xq.tolist(), k=k))
+            ctx.violation("CallSucceeds", site, psig, praised, case=dict(X=Xq.tolist()[:50], k=k))
     for c in calls:
         c.update(id="%s.p%d" % (it, len(dtr) + len(gtr)), site=site, sig=psig)
         (dtr if c["kind"] == "distance" else gtr).append(c)
@@ -467,6 +474,11 @@ def run(ctx):
         balanced = rng.random() < 0.5 and strategy != "weights"
         km, X = run_model(rng, n, k, d, strategy, kmeans0, seed, max_iter, balanced)
         record_fit(ctx, rng, it, km, X, n, k, d, strategy, kmeans0, seed, max_iter, balanced, dtr, gtr, ftr)
+    # balanced predictions on batches of more than a thousand rows (k = 3, 5, 7: no divisor of a power of two)
+    for j, (strategy, k) in enumerate([("distance", 3), ("gain", 5)] + ([("gain", 3), ("distance", 7), ("distance", 5)] if thorough else [])):
+        n, d, seed = rng.randint(3 * k, 30), rng.randint(1, 2), rng.randint(0, 10 ** 6)
+        km, X = run_model(rng, n, k, d, strategy, True, seed, 5, True)
+        record_fit(ctx, rng, "big%d" % j, km, X, n, k, d, strategy, True, seed, 5, True, dtr, gtr, ftr, big=True)
     for mod, cfgf, trs in (("QuotaTrace", "QuotaTrace.cfg", dtr), ("QuotaGainTrace", "QuotaGainTrace.cfg", gtr),
                            ("QuotaFitTrace", "QuotaFitTrace.cfg", ftr)):
         if not trs:
